@@ -3,6 +3,7 @@
 // (fault enumeration); models, serialisations, clock offsets and surrounding history are sampled.
 #include "prof_common.h"
 
+#include <set>
 #include <sstream>
 
 namespace sim {
@@ -226,7 +227,11 @@ void profile_blast(RunCtx& ctx)
                     }
                 }
             }
-            if (!b.declaring() && nerr > in_block) {
+            // "every error is attributed to it" is claimed for the fault list of the property (ill-formed by
+            // construction); a truncation or token deletion may instead yield a *well-formed* label with another meaning
+            // (ch1! -> ch1 turns an I/O synchronisation into a CSP one), whose conflict with other labels is
+            // rightly reported where the type checker meets it
+            if (!b.declaring() && fr.guaranteed_error && nerr > in_block) {
                 if (ctx.violation("C06", "error-attributed-elsewhere", "c06b|elsewhere|" + block_sig(b) + "|" + fname,
                                   where + ": error outside the faulted non-declaring label: " + stray + "; text: " + fr.text))
                     return;
@@ -256,9 +261,11 @@ void profile_blast(RunCtx& ctx)
                 o.mask_elem = (b.kind == BlockRef::INV || b.kind == BlockRef::RATE) ? 'L' : 'E';
                 o.mask_index = b.index;
                 o.mask_field = b.field();
+                o.mask_path = b.xpath;
                 std::string want = dump_document(*ref_builder.doc, o);
                 std::string got = dump_document(*s.doc, o);
                 ctx.count("c16-label-comparisons");
+                ctx.count("c16-comparisons");
                 if (want != got) {
                     std::string d = first_diff(want, got);
                     std::string kind = first_word(d.substr(d.find('[') + 1));
@@ -266,13 +273,27 @@ void profile_blast(RunCtx& ctx)
                                       where + ": outside the faulted label the document differs from the fault-free one: " + d + "; text: " + fr.text))
                         return;
                 }
-                for (auto& d : view_diagnostics(*s.doc))
-                    if (d.path != b.xpath) {
+                // diagnostics of other blocks: only those the fault-free load does not have as well are attributed to
+                // the fault (an accepted model may carry warnings, e.g. "$shadows_a_variable" for the deliberately
+                // reused binder names)
+                {
+                    std::multiset<std::string> base;
+                    for (auto& d : view_diagnostics(*ref_builder.doc))
+                        base.insert(d.path + "|" + d.msg);
+                    for (auto& d : view_diagnostics(*s.doc)) {
+                        if (d.path == b.xpath)
+                            continue;
+                        auto it = base.find(d.path + "|" + d.msg);
+                        if (it != base.end()) {
+                            base.erase(it);
+                            continue;
+                        }
                         if (ctx.violation("C16", "diagnostic-in-other-block", "c16|diag-elsewhere|" + block_sig(b) + "|" + fname,
                                           where + ": diagnostic '" + d.msg + "' attributed to " + d.path + "; text: " + fr.text))
                             return;
                         break;
                     }
+                }
             } else {
                 // declarations that textually precede the faulted declaration are present and unchanged
                 const auto& decls = b.kind == BlockRef::GDECL ? pristine.gdecls : pristine.templs[b.templ].decls;
@@ -298,6 +319,7 @@ void profile_blast(RunCtx& ctx)
                 std::string want = dump_document(*ref_builder.doc, o);
                 std::string got = dump_document(*s.doc, o);
                 ctx.count("c16-declaration-prefix-comparisons");
+                ctx.count("c16-comparisons");
                 ctx.count("c16-declarations-preceding", idx);
                 if (want != got) {
                     std::string d = first_diff(want, got);
